@@ -494,6 +494,15 @@ func (st *tunnelServerStream) SendMsg(m interface{}) error {
 	st.writeMu.Lock()
 	defer st.writeMu.Unlock()
 
+	if st.closed {
+		// The stream has already been finished (cancelled by the client or
+		// failed): its final headers and close frame are on their way, so no
+		// response data may follow them.
+		if err := st.ctx.Err(); err != nil {
+			return err
+		}
+		return status.Errorf(codes.Internal, "stream is already finished")
+	}
 	if !st.sentHeaders {
 		if err := st.sendHeadersLocked(); err != nil {
 			return err
